@@ -515,7 +515,13 @@ pub fn model_input(base: &Base, op: usize, rng: &mut Rng, deep_groups: usize) ->
                     if t.count < 2 {
                         return None;
                     }
-                    t.count -= 1;
+                    if rng.chance(1, 3) {
+                        // a consistent EMPTY tileset (no tiles, an empty pixel stream) under the tilemap cels that use it
+                        t.count = 0;
+                        t.pixels.clear();
+                    } else {
+                        t.count -= 1;
+                    }
                 }
                 "tileset_area_mismatch" => {
                     if rng.chance(1, 2) {
@@ -716,6 +722,13 @@ pub fn model_input(base: &Base, op: usize, rng: &mut Rng, deep_groups: usize) ->
                     write_field(&mut b, first.off, 4, *rng.pick(&[0u64, 100, 0xfff0_0000]));
                     let f = read_field(&b, first.off, 4);
                     write_field(&mut b, last.off, 4, (f + *rng.pick(&[1_000_000u64, 0x0fff_ffff, 70000])).min(0xffff_ffff));
+                    if rng.chance(1, 2) {
+                        // the chunk's own "total entries" field agrees with the lying range (three fields cooperate)
+                        if let Some(total) = map.fields.iter().find(|f| f.name.ends_with("palette.total")) {
+                            let l = read_field(&b, last.off, 4);
+                            write_field(&mut b, total.off, 4, (l - f + 1).min(0xffff_ffff));
+                        }
+                    }
                 }
             }
             return Some(Input { operator: format!("model:{}", name), label: format!("palette chunk first={} last={} with 4 entries", read_field(&b, first.off, 4), read_field(&b, last.off, 4)), bytes: b });
